@@ -56,7 +56,9 @@ func c17map(r *rand.Rand) map[string]interface{} {
 	keys := []string{"a", "b", "c", "k", "id", "items", "entry"}
 	var gen func(d int) interface{}
 	scalar := func() interface{} {
-		switch r.Intn(6) {
+		switch r.Intn(7) {
+		case 6:
+			return nil
 		case 0:
 			return float64(r.Intn(6))
 		case 1:
@@ -102,6 +104,18 @@ func c17map(r *rand.Rand) map[string]interface{} {
 		}
 	}
 	root := jv.M{"doc": gen(2 + r.Intn(4))}
+	if r.Intn(3) == 0 {
+		// several parents each holding a list with spare capacity: a query that collects across them must not write into them
+		secs := jv.L{}
+		for i, n := 0, 2+r.Intn(3); i < n; i++ {
+			items := make(jv.L, 0, 8)
+			for j, k := 0, 1+r.Intn(3); j < k; j++ {
+				items = append(items, fmt.Sprintf("i%d.%d", i, j))
+			}
+			secs = append(secs, jv.M{"item": items, "id": scalar()})
+		}
+		root["sec"] = secs
+	}
 	if r.Intn(4) == 0 {
 		// more values than the initial result capacity of the query functions
 		wide := jv.L{}
@@ -242,6 +256,26 @@ func c17purity(c *core.Ctx) {
 		mxj.XmlCheckIsValid(r.Intn(2) == 0)
 		mxj.LeafUseDotNotation(r.Intn(2) == 0)
 	}
+	// query results belong to the caller: results of earlier queries must not change when later queries run
+	type keptRes struct {
+		name string
+		vals []interface{}
+		fp   string
+	}
+	var keptResults []keptRes
+	for _, p := range []string{"sec.item", "sec.*", "doc.items", "items", "sec.id"} {
+		if vs, err := m.ValuesForPath(p); err == nil && len(vs) > 0 {
+			keptResults = append(keptResults, keptRes{"ValuesForPath(" + p + ")", vs, jv.Fp(vs)})
+		}
+	}
+	defer func() {
+		for _, k := range keptResults {
+			c.Count("purity:retained-query-results")
+			if jv.Fp(k.vals) != k.fp {
+				c.Violate("c17-query-result-changed-later", "the result of "+k.name+" changed when later queries ran (it shares a buffer with the receiver or with other results)", core.D{"query": k.name, "was": k.fp, "now": jv.Show(k.vals), "map": before})
+			}
+		}
+	}()
 	optsBefore := mxj.VerifOptionSnapshot()
 	for _, o := range ops {
 		o.f()
@@ -352,7 +386,10 @@ func c17round(c *core.Ctx) {
 	}
 	pool := []string{"doc", "a", "b", "c", "k", "id", "items", "entry"}
 	mkOp := func() c17op {
-		switch r.Intn(23) {
+		switch r.Intn(24) {
+		case 23:
+			p := []string{"sec.item", "sec.*", "sec.id"}[r.Intn(3)]
+			return c17op{"q:ValuesForPath(collecting)", func() string { return fpVals(shared.ValuesForPath(p)) }}
 		case 22:
 			return c17op{"q:ValuesForPath(wide)", func() string { return fpVals(shared.ValuesForPath("items")) + fpVals(shared.ValuesForKey("id")) }}
 		case 0:
